@@ -17,7 +17,7 @@ import (
 )
 
 func TestMain(m *testing.M) {
-	ev.Note("rule", "C12: rapid state machine over one schema instance built from a generated description (all kinds; defaults incl. defaults of nested by-value members, enums, one-of, maps, units): actions Unserialize / Validate / Serialize / data-mode and schema-mode ValidateCompatibility with valid, perturbed and hostile arguments, and 'scramble the previous result in place'. Every call is evaluated 12 times (Go re-randomises each map range): error-ness must be identical and results Equal; the argument is deep-copied before and must be Equal after; after every step the schema's self-description and the GetDefaults() of each of its objects must equal the snapshots taken before the history, and a fixed probe set of inputs must give results Equal to those of a freshly built instance of the same description. Non-trivial: the history contains an erroring call and a default-filling call, or an argument with a map of >= 2 entries; distinct by (schema, history).")
+	ev.Note("rule", "C12: rapid state machine over one schema instance built from a generated description (all kinds; defaults incl. defaults of nested by-value members, enums, one-of, maps, units): actions Unserialize / Validate / Serialize / data-mode and schema-mode ValidateCompatibility with valid, hostile and near-valid arguments (the previous result with exactly one leaf spoiled, so that the call fails deep inside), and 'scramble the previous result in place'. Every call is evaluated 12 times (Go re-randomises each map range): error-ness must be identical and results Equal; the argument is deep-copied before and must be Equal after; after every step the schema's self-description and the GetDefaults() of each of its objects must equal the snapshots taken before the history, and a fixed probe set of inputs must give results Equal to those of a freshly built instance of the same description. Non-trivial: the history contains an erroring call and a default-filling call, or an argument with a map of >= 2 entries; distinct by (schema, history).")
 	ev.RegisterReplay("history", func(t *testing.T, raw json.RawMessage) {
 		var h History
 		if err := json.Unmarshal(raw, &h); err != nil {
@@ -43,6 +43,7 @@ type Step struct {
 	Op    string     `json:"op"` // unserialize, validate_of, serialize_of, validate_raw, serialize_raw, compat_data, compat_schema, scramble
 	Arg   val.V      `json:"arg"`
 	Other *spec.Spec `json:"other,omitempty"`
+	K     int        `json:"k,omitempty"` // validate_spoiled / serialize_spoiled: which leaf of the last result is spoiled
 }
 
 type machine struct {
@@ -256,6 +257,23 @@ func (m *machine) step(st Step) string {
 			f = m.sch.Serialize
 		}
 		if _, msg := eval(st.Op[:len(st.Op)-3], m.last, f); msg != "" {
+			return msg
+		}
+	case "validate_spoiled", "serialize_spoiled":
+		// the last result with exactly one leaf made invalid: the call gets as far as the container holding that
+		// leaf (through every discriminator on the way) before it fails
+		if m.last == nil {
+			return ""
+		}
+		arg, n := val.Spoil(m.last, st.K)
+		if n == 0 {
+			return ""
+		}
+		f := func(a any) (any, error) { return nil, m.sch.Validate(a) }
+		if st.Op == "serialize_spoiled" {
+			f = m.sch.Serialize
+		}
+		if _, msg := eval(st.Op[:len(st.Op)-8]+" (one leaf spoiled)", arg, f); msg != "" {
 			return msg
 		}
 	case "validate_raw":
@@ -492,7 +510,7 @@ func TestPurity(t *testing.T) {
 		nSteps := rapid.IntRange(1, 10).Draw(rt, "nSteps")
 		for i := 0; i < nSteps; i++ {
 			st := Step{}
-			ops := []string{"unserialize", "unserialize", "unserialize_bad", "validate_of", "serialize_of", "validate_raw", "serialize_raw", "compat_data", "scramble"}
+			ops := []string{"unserialize", "unserialize", "unserialize_bad", "validate_of", "serialize_of", "validate_spoiled", "serialize_spoiled", "validate_raw", "serialize_raw", "compat_data", "scramble"}
 			if !recursive {
 				ops = append(ops, "compat_schema")
 			}
@@ -517,6 +535,12 @@ func TestPurity(t *testing.T) {
 			case "unserialize_bad":
 				st.Op = "unserialize"
 				st.Arg = gen.Hostile(2).Draw(rt, "hostileArg")
+			case "validate_spoiled", "serialize_spoiled":
+				st.Op = op
+				st.K = rapid.IntRange(0, 63).Draw(rt, "spoilLeaf")
+				if m.last != nil {
+					ev.Class("spoiled_call", 1)
+				}
 			case "validate_raw", "serialize_raw":
 				st.Op = op
 				st.Arg = gen.Native(2).Draw(rt, "nativeArg")
